@@ -379,11 +379,13 @@ def check_grammar(rules, vocab, target):
     # compound lines: an operation that follows another operation on the same line keeps its own class
     for mn in carriers[:1]:
         for cls, scope, words in (('instruction', INSTR_SCOPE, vocab['instructions']), ('macro', MACRO_SCOPE, vocab['macros'])):
-            for w in words:
-                res = classify_second(rules, mn, w)
-                if res is None or res[0] != scope or res[1].lower() != w.lower() or res[2] != 0:
-                    v.append(f'CL-{cls}-after-another-operation-not-classified-in-full')
-                    detail.append((f'{mn} {w}', res, cls + '-compound'))
+            for w0 in words:
+                # mnemonics are case-insensitive wherever they stand; also as the SECOND operation of a line
+                for w in ([w0, w0.upper(), w0.capitalize()] if cls == 'instruction' else [w0]):
+                    res = classify_second(rules, mn, w)
+                    if res is None or res[0] != scope or res[1].lower() != w.lower() or res[2] != 0:
+                        v.append(f'CL-{cls}-after-another-operation-not-classified-in-full')
+                        detail.append((f'{mn} {w}', res, cls + '-compound'))
     for d in COMPILER_DIRECTIVES:
         expect('.' + d, DIR_SCOPE, 'directive')
     for d in BYTECODE_DIRECTIVES:
